@@ -145,6 +145,9 @@ func apiRoutes(c *Case, direct Observed) (problems []string) {
 	cfg := &apifu.Config{PreprocessGraphQLSchemaDefinition: func(*graphql.SchemaDefinition) error { return nil }}
 	cfg.AddQueryField("f", w.fDef)
 	cfg.AddQueryField("g", w.gDef)
+	if w.uDef != nil {
+		cfg.AddQueryField("u", w.uDef)
+	}
 	for _, t := range w.extra {
 		cfg.AddNamedType(t)
 	}
